@@ -4,6 +4,7 @@
    wmean_def ps = sum(w x)/sum(w), repeat_by_weights (Spec/Sample.v).  The model describes the
    repaired code (D4: the weighted Mean/GeoMean skip zero weights). *)
 From MM Require Import Base.Num Base.GASort Model.Stream Proofs.Stream Model.Sample Spec.Sample Proofs.Sample.
+From MM Require Import Check.C09 Proofs.CheckC09.
 From Coq Require Import Permutation Sorted.
 Local Open Scope Q_scope.
 
@@ -202,3 +203,91 @@ Example C09_example_sort_history :
      mkSample [1; 1; 2; 3] (Some [6; 8; 7; 5]) true] /\
   linspace 0 1 5 = [0; 1 # 4; 1 # 2; 3 # 4; 1] /\ vconcat [[1; 2]; []; [3]] = [1; 2; 3].
 Proof. vm_compute. repeat split; reflexivity. Qed.
+
+(* ===== what an accepted verdict of the correspondence comparator certifies (Proofs/CheckC09.v) =====
+   check_C09 = p_line (decoding) followed by check_case (comparison).  Verdict 1 (borderline) is never produced:
+   an accepted verdict has code 0.  It implies [case_ok cs] for the decoded case cs:
+     kind 0  stats_ok: stats.Mean / Sample.Mean within tol_mean (weighted: tol_wmean) of mean_def xs = sum/n
+             (weighted: wmean_def = sum(w x)/sum(w), for non-negative weights of positive total); Variance within
+             tol_var of var_def xs = sum (x - mean)^2/(n-1) (one value: 0); StdDev s through its square:
+             0 <= s and |s^2 - var| <= tol_std = tol_var + 8 ulp var; Sum within tol_sum of Qsum xs (weighted: of
+             wsum_xw = sum(w x)); Weight = n exactly (weighted: within tol_sum ws of Qsum ws); Bounds = exactly
+             (least, greatest) element (is_min, is_max) of xs — weighted: of the values carrying a non-zero weight
+             ([used]) — provided the Sorted flag is only set on ascending data; NaN for the empty sample; weighted
+             Variance / StdDev panic; nothing was modified.  GeoMean: NaN exactly for the empty sample or a value <= 0,
+             else positive with |g^n - prod xs| <= geo_rel n * prod xs when n <= 64, and ONLY bracketed between the least
+             and the greatest value (relative 1e-9) when n > 64 (geo_ok); weighted (sgeo_ok): g^D within geo_rel_D of
+             prod x_i^e_i with e_i / D = w_i / W when the lcm D of the reduced denominators of the w_i / W is <= 64, else
+             only bracketed between the least and greatest value carrying weight; not compared when a value <= 0
+             carries weight or the total weight is 0.
+     kind 1  hist_ok: every dump equals the model store, every queried sample is a legal Sample (swf) and the query
+             satisfies query_obs_ok (same predicates as above) for it — stated relative to the model store h_step
+             (see meta: partial).
+     kind 2  vec_ok: Linspace element-wise within tol_lin of lo + i (hi - lo)/(num - 1); Sum within tol_sum of Qsum;
+             Map / Vectorize / Concat element-wise equal to map f xs / concat xss, inputs unmodified.
+   The Welford loops / folds of Model/Sample.v do not occur in stats_ok, query_obs_ok, lin_ok. *)
+Theorem C09_check_ok_sound : forall line cs c tag pos diag,
+  check_C09 line = verdict c tag pos diag -> (c = 0 \/ c = 1)%Z -> p_line line = Some (cs, []) -> c = 0%Z /\ case_ok cs.
+Proof. exact check_ok_sound. Qed.
+Print Assumptions C09_check_ok_sound.
+
+(* stats_ok also records that the case is a legal Sample (check_case refuses others as malformed), which discharges the
+   premises of its weighted-Mean and Bounds clauses: the weighted Mean is compared whenever some weight is non-zero
+   (total weight 0 is the one case that is NOT compared: the code returns 0 there), Bounds always *)
+Theorem C09_check_ok_weighted_mean_bounds : forall sorted hasw xs ws o, stats_ok sorted hasw xs ws o ->
+  (hasw = true -> xs <> [] -> (exists w, In w ws /\ ~ w == 0) ->
+     sm_st o = 0%Z /\ obs_near (tol_wmean xs) (wmean_def (combine xs ws)) (sm_mean o)) /\
+  bounds_ok (if hasw then used (combine xs ws) else xs) (s_bmin o) (s_bmax o).
+Proof. exact stats_ok_closed. Qed.
+Print Assumptions C09_check_ok_weighted_mean_bounds.
+
+(* the parts of case_ok for histories: one query; the whole run (relative to the model store) *)
+Theorem C09_compare_query_sound : forall s mst m sm w b1 b2 vst v,
+  query_ok s mst m sm w b1 b2 vst v = None -> query_obs_ok s mst m sm w b1 b2 vst v.
+Proof. exact query_ok_sound. Qed.
+Print Assumptions C09_compare_query_sound.
+
+Theorem C09_compare_history_sound : forall ops st idx tag tag' pos diag, Forall swf st ->
+  run_hist st ops idx tag = (0%Z, tag', pos, diag) -> hist_ok st ops.
+Proof. exact run_hist_sound. Qed.
+Print Assumptions C09_compare_history_sound.
+
+(* every queried sample is a legal Sample (swf: one non-negative weight per value, Sorted only on ascending data — an
+   invariant of the store along an accepted run), which discharges the premises of the weighted-Mean and Bounds clauses *)
+Theorem C09_compare_query_closed : forall s mst m sm w b1 b2 vst v, swf s -> query_obs_ok s mst m sm w b1 b2 vst v ->
+  match s_ws s with
+  | Some ws => (s_xs s <> [] -> (exists w0, In w0 ws /\ ~ w0 == 0) ->
+                  mst = 0%Z /\ obs_near (tol_wmean (s_xs s)) (wmean_def (combine (s_xs s) ws)) m) /\
+               bounds_ok (used (combine (s_xs s) ws)) b1 b2
+  | None => bounds_ok (s_xs s) b1 b2
+  end.
+Proof. exact query_closed. Qed.
+Print Assumptions C09_compare_query_closed.
+
+(* GeoMean of at most 64 unweighted values (tag bit 32): exp / ln are never evaluated — the observed g is positive and
+   its n-th power is within the relative tolerance geo_rel n = 64 n (n + 8) 2^-52 of the product of the values *)
+Theorem C09_compare_geomean_sound : forall xs g, (length xs <= 64)%nat ->
+  g_check xs (geomean xs) 0 (XFin g) <> 2%Z -> geomean xs <> GNaN ->
+  0 < g /\ Qabs (Qpw g (length xs) - Qprod xs) <= geo_rel (length xs) * Qprod xs.
+Proof. exact geomean_value_sound. Qed.
+Print Assumptions C09_compare_geomean_sound.
+Example C09_geomean_example : g_check [2; 8] (geomean [2; 8]) 0 (XFin 4) = 0%Z /\ geomean [2; 8] <> GNaN /\
+  g_check [2; 8] (geomean [2; 8]) 0 (XFin (401 # 100)) = 2%Z.
+Proof. split; [vm_compute; reflexivity | split; [discriminate | vm_compute; reflexivity]]. Qed.
+
+(* Non-vacuity: real lines of the harness (hexadecimal fields written in decimal), accepted, and they decode. *)
+Definition C09_line_unw : list Z := [9; 0; 0; 0; 8; 4611686018427387904; 4616189618054758400; 4616189618054758400; 4616189618054758400; 4617315517961601024; 4617315517961601024; 4619567317775286272; 4621256167635550208; 0; 4617315517961601024; 4616832989430097042; 4611996969317966890; 4616868778438153437; 4611686018427387904; 4621256167635550208; 0; 4617315517961601024; 0; 4616832989430097042; 0; 4611996969317966890; 0; 4616868778438153437; 4630826316843712512; 4620693217682128896; 4611686018427387904; 4621256167635550208; 1]%Z.
+Definition C09_line_w : list Z := [9; 0; 1; 1; 3; 4607182418800017408; 4611686018427387904; 4613937818241073152; 3; 0; 4607182418800017408; 4611686018427387904; 4611686018427387904; 4607182418800017408; 4607182418800017408; 4610862402797412991; 4607182418800017408; 4613937818241073152; 0; 4613187218303178069; 2; 0; 2; 0; 0; 4613083803783214218; 4620693217682128896; 4613937818241073152; 4611686018427387904; 4613937818241073152; 1]%Z.
+Definition C09_line_hist : list Z := [9; 1; 0; 1; 4; 4613937818241073152; 4607182418800017408; 4611686018427387904; 4607182418800017408; 4; 4617315517961601024; 4618441417868443648; 4619567317775286272; 4620693217682128896; 5; 1; 0; 2; 0; 1; 4; 4613937818241073152; 4607182418800017408; 4611686018427387904; 4607182418800017408; 4; 4617315517961601024; 4618441417868443648; 4619567317775286272; 4620693217682128896; 0; 1; 4; 4613937818241073152; 4607182418800017408; 4611686018427387904; 4607182418800017408; 4; 4617315517961601024; 4618441417868443648; 4619567317775286272; 4620693217682128896; 0; 1; 2; 0; 1; 4; 4613937818241073152; 4607182418800017408; 4611686018427387904; 4607182418800017408; 4; 4617315517961601024; 4618441417868443648; 4619567317775286272; 4620693217682128896; 1; 1; 4; 4607182418800017408; 4607182418800017408; 4611686018427387904; 4613937818241073152; 4; 4618441417868443648; 4620693217682128896; 4619567317775286272; 4617315517961601024; 3; 0; 0; 4610127080094836578; 4631248529308778496; 4628011567076605952; 4607182418800017408; 4613937818241073152; 2; 0; 2; 1; 0; 4621819117588971520; 2; 0; 1; 4; 4613937818241073152; 4607182418800017408; 4611686018427387904; 4607182418800017408; 4; 4617315517961601024; 4618441417868443648; 4619567317775286272; 4620693217682128896; 0; 1; 4; 4621819117588971520; 4607182418800017408; 4611686018427387904; 4613937818241073152; 4; 4618441417868443648; 4620693217682128896; 4619567317775286272; 4617315517961601024; 3; 1; 0; 4615583364258766218; 4636526185122103296; 4628011567076605952; 4607182418800017408; 4621819117588971520; 2; 0]%Z.
+Definition C09_line_lin : list Z := [9; 2; 0; 0; 4607182418800017408; 5; 5; 0; 4598175219545276416; 4602678819172646912; 4604930618986332160; 4607182418800017408]%Z.
+Definition C09_line_sum : list Z := [9; 2; 2; 3; 4607182418800017408; 4611686018427387904; 4615063718147915776; 4619004367821864960]%Z.
+Example C09_check_examples :
+  check_C09 C09_line_unw = verdict 0 545 (-1) [] /\      (* xs = 2 4 4 4 5 5 7 9, unweighted *)
+  check_C09 C09_line_w = verdict 0 574 (-1) [] /\        (* xs = 1 2 3, weights 0 1 2 (first weight zero), Sorted *)
+  check_C09 C09_line_hist = verdict 0 3200 (-1) [] /\    (* Copy 0; Sort 1; Query 0; Poke 1 0 10; Query 1 *)
+  check_C09 C09_line_lin = verdict 0 256 (-1) [] /\      (* Linspace 0 1 5 *)
+  check_C09 C09_line_sum = verdict 0 256 (-1) [].         (* vec.Sum 1 2 3.5 *)
+Proof. vm_compute. repeat split; reflexivity. Qed.
+Example C09_lines_decode :
+  Forall (fun l => exists cs, p_line l = Some (cs, [])) [C09_line_unw; C09_line_w; C09_line_hist; C09_line_lin; C09_line_sum].
+Proof. repeat constructor; vm_compute; eexists; reflexivity. Qed.
